@@ -112,7 +112,13 @@ def check_history(cfg, hist, compare_from=0):
     ref = seq.RefOpt(cfg, [seq.to_np(p.data) for p in params])
     any_soap = any(g.soap for g in ref.groups)
     msgs, digests, worst = [], [], 0.0
-    for t, mask in enumerate(hist):
+    t = -1
+    for ev in hist:
+        if ev and ev[0] == "set":
+            seq.apply_set(opt, ref, ev)
+            continue
+        mask = ev
+        t += 1
         seq.set_grads(params, cfg, t, mask)
         before_p = [p.detach().clone() for p in params]
         before_s = [param_state_snapshot(opt, p) for p in params]
@@ -151,6 +157,9 @@ def check_history(cfg, hist, compare_from=0):
     return msgs, digests, worst, len(hist)
 
 
+EDITS = [["set", 0, "wd", 0.25], ["set", 0, "lr", 0.125], ["set", 0, "momentum", 0.25]]
+
+
 def run_unit(unit):
     cfg, depth = unit["cfg"], unit["depth"]
     masks = seq.all_masks(3)
@@ -177,6 +186,26 @@ def run_unit(unit):
             res["violations"].append({"case": {"cfg": cfg, "hist": hist}, "msg": f"{msgs[0]} [cfg: {brief(cfg)}]", "kind": msgs[0].split(":")[-1][:30]})
             if len(res["violations"]) >= 10:
                 break
+    # schedulers: one lr / weight-decay / momentum edit at every position of the histories that start with this prefix and
+    # continue with single-parameter masks (the masked lists must be current when a stage is switched on later)
+    if not cfg.get("groups"):
+        singles = [[1, 0, 0], [0, 1, 0], [0, 0, 1], [1, 1, 1]]
+        for rest in itertools.product(singles, repeat=min(2, depth - len(pre))):
+            base = pre + [list(m) for m in rest]
+            for pos in range(1, len(base)):
+                for e in EDITS:
+                    if e[2] == "momentum" and cfg["momentum"] == 0.0:
+                        continue
+                    hist = base[:pos] + [e] + base[pos:]
+                    msgs, digests, worst, n = check_history(cfg, hist, compare_from=0)
+                    res["evals"] += 1
+                    res["transitions"] += n
+                    res["states"].update(digests)
+                    res["stats"]["edit_histories"] = res["stats"].get("edit_histories", 0) + 1
+                    res["stats"]["max_err_over_tol"] = max(res["stats"]["max_err_over_tol"], worst)
+                    res["nontrivial_count"] += 1
+                    if msgs:
+                        res["violations"].append({"case": {"cfg": cfg, "hist": hist}, "msg": f"{msgs[0]} [edit {e}; cfg: {brief(cfg)}]", "kind": "edit" + msgs[0].split(":")[-1][:25]})
     res["samples"].append({"cfg": brief(cfg), "history": pre + [list(masks[3])] * (depth - len(pre))})
     res["states"] = list(res["states"])
     res["outcomes"] = list(res["outcomes"])
